@@ -40,7 +40,8 @@ def first_list_diff(exp, got):
     return dict(index=min(len(exp), len(got)), expected="(%d items)" % len(exp), got="(%d items)" % len(got))
 
 
-def run(ctx, theorem_modules, project, direct, what_proj, what_direct, cfg_kw=None, n=(220, 5000), rule="", assumptions=None):
+def run(ctx, theorem_modules, project, direct, what_proj, what_direct, cfg_kw=None, n=(220, 5000), rule="", assumptions=None,
+        extra_streams=None):
     fw.translate_and_build(ctx, ["WrapModel", "wrapmodel"])
     fw.audit(ctx, theorem_modules)
     case = make_case(project, direct)
@@ -77,6 +78,10 @@ def run(ctx, theorem_modules, project, direct, what_proj, what_direct, cfg_kw=No
         return first
 
     consume(fw.run_cases(case, [(ctx.seed, cfg_kw)] * ctx.scale(*n)))
+    for extra_kw, frac in (extra_streams or []):
+        kw = dict(cfg_kw or {})
+        kw.update(extra_kw)
+        consume(fw.run_cases(case, [(ctx.seed + 2003, kw)] * max(8, int(ctx.scale(*n) * frac))))
 
     def search(c):
         return consume(fw.run_cases(case, [(ctx.seed + 31337, cfg_kw)] * ctx.scale(300, 2000)), collect=False)
